@@ -16,10 +16,21 @@ PROP = dict(
         "search_picks_true_end, ms_normal_picks_contained_end + ms_search_picks_true_end, interior_point_contained, "
         "mc_search_vertex_on_edge (the driver runs M3d.Bisect.mcSearchPoint/msSearchPoint at Rat, edge recovered by the "
         "model of LookupEdgePoint / the msSearch window); "
-        "bis: bisect_interior_contained, bisect_point_bracketed (driver runs bisectPoint/bisectInterior at Float, bit for bit); "
+        "bis/bis2: bisect_interior_contained, bisect_point_bracketed (driver runs bisectPoint/bisectInterior at Float, bit for bit; bis2 = the 2-D twin "
+        "model2d.SolidSurfaceEstimator, same model with the third coordinate 0); "
         "dcidx/dcsz: dc_edge_cubes_consistent, dc_index_roundtrip, dc_four_cubes_round_edge (driver prints the Lean index "
         "functions the theorems are about); dc/dcr: dc_one_quad_per_active_edge, dc_quad_orientation, dc_clip_in_cell, "
-        "dc_quad_crossed_once, dc_flip_reverses_normal, dc_quad_meets_only_own_edge; dcr additionally dc_repair_midpoint_between"
+        "dc_quad_crossed_once, dc_flip_reverses_normal, dc_quad_meets_only_own_edge; dcr additionally dc_repair_midpoint_between; "
+        "dc/dcr through the wrappers DualContour / DualContourInterior(clip=true): dc_wrappers_pass_clip (the literal they build has Clip = clip) "
+        "+ the same dual-contouring theorems; "
+        "mcj/msj (MarchingCubesConj / MarchingSquaresConj): conj_vertex_round_trip, conj_back_is_reversed_inverses, conj_label_is_solid "
+        "(and conj2_*) over C05's transform model M3d.Tf.Xf, + the search theorems of mcs/mss in the transformed space: the driver builds "
+        "TransformSolid(joined, s) (conjSolid3/2: bounds through applyBounds, lattice through spacerCount), refines every sign-changing "
+        "lattice edge and maps the vertex back with conjBack3/2; "
+        "c2f2/c2f3 (MarchingSquaresC2F / MarchingCubesC2F): c2f_ms_filter_sound, c2f_mc_filter_sound (a coarse vertex within D <= total margin "
+        "of every sign-changing fine edge => the filter is point-sound => ms/mc_filter_same_mesh), c2f_total_covers (extraSpace + bigDelta <= "
+        "extraSpace + 2*bigDelta*sqrt3), c2f_mixed_coarse_cell_has_vertex / c2f_mixed_coarse_cube_has_vertex (a crossed coarse cell has a coarse vertex on its boundary): the "
+        "driver builds the model's coarse mesh, re-evaluates the hypothesis with D = extraSpace + bigDelta (nearVertex2/3) and prints the plain fine mesh"
     ),
     rule=(
         "mcv/msv: all 256 (16) single-cell labellings, then random lattice-defined solids (voxel bitfields incl. noisy "
@@ -40,7 +51,8 @@ PROP = dict(
         "the model's rational; additionally, on the real output, each vertex is strictly inside its lattice edge, the two "
         "samples at distance delta/2^(iters+1) are classified differently with the contained one on the side of the "
         "contained lattice end, and interior points satisfy Contains; 2-D solids are also translated so that Min() != 0; "
-        "bis: Bisect/BisectInterior on arbitrary doubles with a half-space through/near an end point, bit for bit; "
+        "bis: Bisect/BisectInterior on arbitrary doubles with a half-space through/near an end point, bit for bit (bis2: one case in six through the "
+        "2-D twin of model2d); all CSG solids may contain oblique half-spaces a*x+b*y+c*z <= d with small integer normals; "
         "dcidx: EdgeCubes/EdgeCorners/CubeEdges/CubeCorners for every index on all grids 2..4 x 2..4 x 2..4 and random "
         "larger ones, dcsz: slice lengths and BufRows; "
         "dc/dcr: DualContouring{Clip:true} with random NoJitter, MaxGos, BufferSize (forcing buffer shifts), CubeMargin "
@@ -50,12 +62,26 @@ PROP = dict(
         "margin; every lattice edge's crossings counted exactly (big.Rat) must be one with the predicted normal sign iff "
         "its ends differ; one contained interior point per active edge; one third of the CSG cases add zero-thickness plates / "
         "segments / points at lattice positions, and a focused batch of 3N small Repair cases (round body + such features, NoJitter, "
-        "default margin) produces singular edges whose ends are clipped to the cube margin"
+        "default margin) produces singular edges whose ends are clipped to the cube margin; 40 % of the dc/dcr cases go through the "
+        "convenience wrappers DualContour(s, delta, repair, true) / DualContourInterior(s, delta, repair, true) (all other options at their "
+        "zero value) and half of the CSG solids carry sharp features that are not aligned with the grid (3..5 oblique half-spaces with "
+        "small integer normals: wedges, pyramid tips, oblique creases - where an unclipped QEF minimiser leaves its cell); "
+        "mcj/msj: MarchingCubesConj / MarchingSquaresConj with 0..3 transforms (translations, uniform and per-axis scales by +-powers of two, "
+        "signed permutation matrices with power-of-two factors, shears - all with exactly representable inverses, mostly non-commuting) on "
+        "dyadic CSG solids, 0..8 iterations: the returned vertices must equal the model's rationals; on the real output, the vertices mapped "
+        "forward through joined.Apply satisfy the parity / transition predicates on the lattice of the transformed solid; "
+        "c2f2/c2f3: MarchingSquaresC2F / MarchingCubesC2F with coarse/fine ratios 1.5..64 (2-D) and 2..16 (3-D), bodies of balls and boxes of "
+        "about one coarse cell (unions, differences) plus small islands, iterations 0..8, GOMAXPROCS 1..4; the harness measures the max-norm "
+        "distance of every sign-changing fine edge to the vertices of the REAL coarse mesh and passes extraSpace = 0 (or one fine cell) when it "
+        "is at most bigDelta, else the extraSpace that covers it (cases whose coarse mesh is empty are skipped: nothing is demanded); "
+        "demanded output: the refined vertices of the plain fine mesh, exactly"
     ),
     trusted=[
         "regenerated, not hand-written: lean/M3d/Gen/Kernels.lean (Go->Lean translator harness/hlib/go2lean) contains the index "
         "functions of dcCubeLayout (model3d/dc.go); M3d.KernelsTie.DC.* re-prove against the current source that cornerIdx, cubeCoord "
-        "(truncating % and /=), edgeCounts and x/y/zEdgeIdx are the layout functions of Model/DualContour.lean (nx = len(Xs), ny = len(Ys))",
+        "(truncating % and /=), edgeCounts and x/y/zEdgeIdx are the layout functions of Model/DualContour.lean (nx = len(Xs), ny = len(Ys)), and "
+        "(round 3) that CubeEdges, CubeCorners and EdgeCorners are cubeEdges, cubeCorners, edgeCorners entry by entry (cubeEdges_eq, cubeCorners_eq, "
+        "edgeCorners_eq); EdgeCubes (function literal) is outside the translator's subset and tied by the exhaustive dcidx correspondence",
         "regenerated by the C01 check, imported here: the 256/16-row lookup tables (M3d/Gen/McTable.lean); "
         "C01.mc_rows_wellformed / ms_rows_wellformed are the only table facts the whole-lattice lift uses",
         "LookupEdgePoint's mod/int arithmetic and msSearch's window are modelled at Rat (M3d.Bisect.lookupEdgePoint/msLookup), "
@@ -65,7 +91,15 @@ PROP = dict(
         "(tied to the source by C12's KernelsTiePartition); here the regenerated msBlock.Bounds / mcBlock.Bounds are tied by "
         "M3d.KernelsTie.FilterBounds (they contain every lattice point min..max of the block).  The harness's three-valued CSG "
         "evaluator (filter mode 1) is trusted Go code, cross-checked against the lattice labels on every rejected rectangle; "
-        "MarchingSquaresC2F / MarchingCubesC2F are not exercised here",
+        "MarchingSquaresC2F / MarchingCubesC2F: the filter closure (collider.RectCollision(r.Expand(extraSpace)) over MeshToCollider(coarseMesh)) is "
+        "modelled as any F that reports a rectangle whose expansion contains a vertex of the coarse mesh (hypothesis hF of c2f_ms/mc_filter_sound; "
+        "completeness of RectCollision is C07/C08's subject); math.Sqrt(3) enters only through 1 <= sqrt3; the reading of 'details totally missed "
+        "by the coarse mesh' is: further than extraSpace + bigDelta (max-norm) from every vertex of the coarse mesh - a feature inside a coarse "
+        "cell that the coarse mesh crosses is never missed (c2f_mixed_coarse_cell_has_vertex)",
+        "MarchingCubesConj / MarchingSquaresConj: the transforms are C05's model M3d.Tf.Xf (Model/Transform.lean, Transform2.lean, tied to the "
+        "source by C05's correspondence and KernelsTieTransform); here only the glue is modelled (conjSolid/conjBack, M3d/Model/MarchingGlue.lean) "
+        "and tied by the exact mcj/msj correspondence; newSquareSpacer is modelled at Rat (spacerCount) - exact on the dyadic bounds used",
+        "DualContour / DualContourInterior: the options literal is a hand-written model (dualContourOptions), tied by running dc/dcr through the wrappers",
         "floating point: the bisection theorems are over ordered fields; the code's float arithmetic coincides with them "
         "on the dyadic inputs of the exact correspondence (all sums exact).  For non-dyadic lattices (x += delta "
         "accumulation, delta*i + jitter) the lattice values are taken as given",
@@ -98,8 +132,11 @@ PROP = dict(
         "per active edge with the four surrounding cells, oriented from the contained to the excluded end, clipped "
         "vertices stay in their cells, any quad with vertices inside its four cells is crossed by its edge exactly "
         "once with that normal and meets no other lattice edge, and the vertex Repair inserts on a singular edge stays between "
-        "the edge's ends round every grid edge of the shared face.  Tie: exact (Rat) / bit-exact (Float) correspondence of the real MarchingCubes*, "
-        "MarchingSquares*, SolidSurfaceEstimator and DualContouring code with these models, plus direct evaluation of "
+        "the edge's ends round every grid edge of the shared face; the vertex map of MarchingCubesConj/MarchingSquaresConj inverts the joined "
+        "transform (members' inverses last to first) and the label of a lattice point of the transformed space is the solid's answer at its image "
+        "under that map; the C2F filter is a sound block oracle (hence C2F = plain fine mesh) whenever every sign-changing fine edge starts "
+        "within the total margin of a coarse-mesh vertex, which extraSpace + one bigDelta always is; the DualContour wrappers pass clip on.  Tie: exact (Rat) / bit-exact (Float) correspondence of the real MarchingCubes*, "
+        "MarchingSquares* (incl. Conj and C2F), SolidSurfaceEstimator and DualContouring (struct and wrappers) code with these models, plus direct evaluation of "
         "the property predicates on real outputs."
     ),
     level_note=(
